@@ -882,6 +882,10 @@ class Spy:
         if t0 and tags[-len(t0):] != t0:
             return self.fail('reraise-traceback-lost', 'traceback %s does not end with the original %s' % (tags, t0),
                              klass)
+        added = tags[:len(tags) - len(t0)]
+        if r['forced'] == 0 and (added.count('S') > 1 or any(t not in ('S', 'X', 'F') for t in added)):
+            # only the re-raise itself (force_reraise, __exit__, the frame of the `with`) may be added
+            return self.fail('reraise-traceback-polluted', 'original traceback %s came back as %s' % (t0, tags), klass)
 
     # -- probes that only record how a body ended --------------------------
     def plain_in(self, i):
